@@ -64,7 +64,7 @@ PY
     if [ $frc -ne 0 ]; then
         if grep -q "^VIOLATION property=" "$out"; then
             grep "^VIOLATION property=" "$out" | head -1
-            grep -m1 "panicked at" -A 1 "$out" | tail -1
+            grep -m1 -A 2 "^VIOLATION property=" "$out" | tail -2
             rc=1
         else
             tail -5 "$out"; echo "INCONCLUSIVE property=$ID: libFuzzer exit code $frc without a violation line (timeout / oom / fuzzer error)"
